@@ -17,22 +17,36 @@ package c02
 //	oN      ok | stay | err | undeliv | silent | dies   outcome script of task N for this command
 //	        (error reply staying in the source state / error reply with state ERROR / master answers 503 /
 //	        never answers / terminal status update instead of a reply); `-` for "whatever"
+//	        | (xfail BASE WHEN UPD) | (afail BASE WHEN UPD)    (ControlEnvironment requests only)
+//	        the executor (xfail) / the agent (afail) of task N is lost — Mesos FAILURE event — while the command is
+//	        outstanding: BASE = ok | stay | err | silent is what the task does with the command; WHEN = after: the
+//	        loss is injected once the task's reply has left, before: the reply is held back and then never leaves;
+//	        UPD = 1: the terminal status updates of the tasks hit (TASK_FAILED / TASK_LOST) precede the FAILURE event.
+//	        The core runs one executor per agent: every live task on the same host is hit (those without a mark of
+//	        their own after their reply). The other targets answer only after the core has handled the loss (they
+//	        keep the command outstanding); if there is none, a `before` / silent victim does (the core's time-out).
 //
 // Observation: one entry per request issued, in order
 //
 //	(new <rpc> <state> <after> (<i> ...))          NewEnvironment  (DEPLOY + CONFIGURE); cmd = tasks the CONFIGURE went to
 //	(ctl <EV> <rpc> <state> <after> (<i> ...))     ControlEnvironment
+//	(ctl <EV> <rpc> <state> <after> (<i> ...) (lost <i> ...))   …during which the executor / agent of the live tasks
+//	                                               <i> … was lost (read off the master's task table)
 //
 //	rpc    ok | err | hang      gRPC status (hang: no answer within hangCeiling while the core shows the transition in progress)
 //	state  state in the reply, `-` if none
 //	after  GetEnvironment state right afterwards, `gone` if the core no longer lists it
 //
-// The run stops after the first request that did not answer ok with its destination state, and after a request
-// in which a command was undeliverable (the core's scheduler client does not recover from a failed call: see notes).
+// The run stops after the first request that did not answer ok with its destination state, after a request
+// in which a command was undeliverable (the core's scheduler client does not recover from a failed call: see notes),
+// and after a request during which a critical live task was lost (the environment's watcher takes it to ERROR; the
+// harness waits for that before it reads <after>).
 
 import (
 	"context"
 	"fmt"
+	"os/exec"
+	"path/filepath"
 	"sort"
 	"strings"
 	"time"
@@ -48,9 +62,14 @@ import (
 
 const (
 	deployTimeout = "8s"
-	reqCeiling    = 260 * time.Second // > CONFIGURE's 120 s response timeout; never a verdict
-	hangCeiling   = 20 * time.Second  // a request that normally takes milliseconds and has no timer on its path
+	hangCeiling   = 20 * time.Second // a request that normally takes milliseconds and has no timer on its path
 )
+
+// reqCeiling: > CONFIGURE's 120 s response timeout; never a verdict (the probe program may shorten it)
+var reqCeiling = 260 * time.Second
+
+// SetReqCeiling is for the probe program.
+func SetReqCeiling(d time.Duration) { reqCeiling = d }
 
 type taskSpec struct {
 	crit   bool
@@ -59,10 +78,20 @@ type taskSpec struct {
 	launch string
 }
 
-type stepSpec struct {
-	ev   string
-	outs []string
+// lossMark: `(xfail BASE WHEN UPD)` / `(afail BASE WHEN UPD)` on a task's outcome.
+type lossMark struct {
+	agent  bool // afail
+	before bool
+	upd    bool
 }
+
+type stepSpec struct {
+	ev    string
+	outs  []string    // (base) outcome per task
+	marks []*lossMark // per task, nil = no mark; nil slice = no mark in this step
+}
+
+func (st stepSpec) hasLoss() bool { return st.marks != nil }
 
 type scenario struct {
 	calls int
@@ -98,7 +127,32 @@ func parseScenario(in string) (*scenario, error) {
 		}
 		st := stepSpec{ev: s.At(0).Str()}
 		for j := 1; j < s.Len(); j++ {
-			st.outs = append(st.outs, s.At(j).Str())
+			o := s.At(j)
+			if !o.IsList {
+				st.outs = append(st.outs, o.Str())
+				continue
+			}
+			// loss mark
+			if o.Len() != 4 || i == 1 || st.ev == "DIE" {
+				return nil, fmt.Errorf("bad loss mark")
+			}
+			k, base, when := o.At(0).Str(), o.At(1).Str(), o.At(2).Str()
+			if (k != "xfail" && k != "afail") || (when != "before" && when != "after") ||
+				(base != "ok" && base != "stay" && base != "err" && base != "silent") {
+				return nil, fmt.Errorf("bad loss mark")
+			}
+			if st.marks == nil {
+				st.marks = make([]*lossMark, len(sc.tasks))
+			}
+			st.marks[j-1] = &lossMark{agent: k == "afail", before: when == "before", upd: o.At(3).Bool()}
+			st.outs = append(st.outs, base)
+		}
+		if st.hasLoss() {
+			for _, o := range st.outs {
+				if o != "ok" && o != "stay" && o != "err" && o != "silent" && o != "-" {
+					return nil, fmt.Errorf("outcome %q in a request with a loss", o)
+				}
+			}
 		}
 		sc.steps = append(sc.steps, st)
 	}
@@ -173,6 +227,175 @@ func script(w *sim.World, sc *scenario, st stepSpec) error {
 		}
 		w.SetOutcome(sim.Selector{Class: fmt.Sprintf("tc%d", i)}, simEvent[st.ev], out)
 	}
+	return nil
+}
+
+func replies(o string) bool { return o == "ok" || o == "-" || o == "stay" || o == "err" }
+
+// lossPlan: what is lost during one request, worked out before the request is sent.
+type lossPlan struct {
+	events     []lossEvent // one FAILURE event per host with a mark
+	victims    map[int]string // task index -> task id of every live task on such a host
+	lost       []int          // the same, sorted
+	critLost   bool
+	awaitReply []string // task ids of the victims whose reply must have left before the loss
+	gCo, gVB   string   // gate of the other targets / of the victims hit before their reply
+	nCo, nVB   int
+	silenced   bool // some victim's reply never leaves: the core waits for its response time-out
+}
+
+type lossEvent struct {
+	agent, upd      bool
+	agentID, execID string
+}
+
+// scriptLoss scripts the outcomes of a request with loss marks: victims marked `before` park their reply at gate gVB
+// (it never leaves: the simulated task is gone when the gate opens), the other victims answer at once, every other
+// target parks its reaction at gate gCo until the core has handled the loss.
+func scriptLoss(w *sim.World, sc *scenario, st stepSpec, stepNo int) (*lossPlan, error) {
+	live := map[int]sim.TaskRecord{}
+	for _, t := range w.Tasks() {
+		var i int
+		if _, err := fmt.Sscanf(t.Class, "tc%d", &i); err == nil && !t.Terminal {
+			live[i] = t
+		}
+	}
+	p := &lossPlan{victims: map[int]string{}, gCo: fmt.Sprintf("co%d", stepNo), gVB: fmt.Sprintf("vb%d", stepNo)}
+	byHost := map[string]*lossEvent{}
+	for i, m := range st.marks {
+		if m == nil {
+			continue
+		}
+		t, ok := live[i]
+		if !ok {
+			return nil, fmt.Errorf("loss mark on task %d, which is not running", i)
+		}
+		h := sc.tasks[i].host
+		if e, ok := byHost[h]; ok {
+			if e.agent != m.agent || e.upd != m.upd {
+				return nil, fmt.Errorf("two different losses on host %s in one request", h)
+			}
+			continue
+		}
+		byHost[h] = &lossEvent{agent: m.agent, upd: m.upd, agentID: t.AgentID, execID: t.ExecutorID}
+		p.events = append(p.events, *byHost[h])
+	}
+	// the model's assumption (one executor per agent: a loss hits every live task on the host) against the master's table
+	for i, t := range live {
+		_, byModel := byHost[sc.tasks[i].host]
+		byTable := false
+		for _, e := range p.events {
+			if t.AgentID == e.agentID && (e.agent || t.ExecutorID == e.execID) {
+				byTable = true
+			}
+		}
+		if byModel != byTable {
+			return nil, &sim.InfraError{What: fmt.Sprintf("task %d on %s: executor %s/%s does not follow one-executor-per-host", i, sc.tasks[i].host, t.AgentID, t.ExecutorID)}
+		}
+		if byModel {
+			p.victims[i] = t.TaskID
+			p.lost = append(p.lost, i)
+			if sc.tasks[i].crit {
+				p.critLost = true
+			}
+		}
+	}
+	sort.Ints(p.lost)
+	w.Master.ClearOutcomes()
+	for i, o := range st.outs {
+		out, ok := outcomeOf(o)
+		if !ok {
+			return nil, fmt.Errorf("unknown outcome %q", o)
+		}
+		if _, alive := live[i]; alive {
+			if id, hit := p.victims[i]; hit {
+				switch {
+				case st.marks[i] != nil && st.marks[i].before && replies(o):
+					out.Gate = p.gVB
+					p.nVB++
+					p.silenced = true
+				case replies(o):
+					p.awaitReply = append(p.awaitReply, id)
+				default:
+					p.silenced = true
+				}
+			} else {
+				out.Gate = p.gCo
+				p.nCo++
+			}
+		}
+		w.SetOutcome(sim.Selector{Class: fmt.Sprintf("tc%d", i)}, simEvent[st.ev], out)
+	}
+	return p, nil
+}
+
+// loseDuring: the request has been sent. Wait until its command is parked as planned (the victims' replies have left
+// the master, every other reaction is held), inject the FAILURE events, wait until the core has handled them (every task
+// hit is reported unlocked and not ACTIVE), make sure the command is STILL outstanding, and let the other targets answer.
+func loseDuring(w *sim.World, p *lossPlan, ch chan rpcResult, mark int) error {
+	defer func() {
+		w.Release(p.gCo)
+		w.Release(p.gVB)
+	}()
+	if err := sim.Poll("command parked before the loss", 60*time.Second, func() (bool, error) {
+		if len(ch) > 0 {
+			return true, nil
+		}
+		if w.Master.Held(p.gCo) != p.nCo || w.Master.Held(p.gVB) != p.nVB {
+			return false, nil
+		}
+		seen := map[string]bool{}
+		for _, r := range w.Trace()[mark:] {
+			if r.Dir == "event" && r.Type == "MESSAGE" && r.MsgType == "MesosCommandResponse" && r.Delivered {
+				for _, id := range r.TaskIDs {
+					seen[id] = true
+				}
+			}
+		}
+		for _, id := range p.awaitReply {
+			if !seen[id] {
+				return false, nil
+			}
+		}
+		return true, nil
+	}); err != nil {
+		return err
+	}
+	if len(ch) > 0 {
+		return fmt.Errorf("the request was answered before the loss could be injected")
+	}
+	for _, e := range p.events {
+		if e.agent {
+			w.Master.InjectAgentFailure(e.agentID, e.upd)
+		} else {
+			w.Master.InjectExecutorFailure(e.agentID, e.execID, 9, e.upd)
+		}
+	}
+	ids := map[string]bool{}
+	for _, id := range p.victims {
+		ids[id] = true
+	}
+	if err := sim.Poll("tasks of the lost executor/agent reported unlocked and inactive", 60*time.Second, func() (bool, error) {
+		ctx, cancel := context.WithTimeout(context.Background(), 30*time.Second)
+		defer cancel()
+		r, err := w.Client().GetTasks(ctx, &pb.GetTasksRequest{})
+		if err != nil {
+			return false, &sim.InfraError{What: "GetTasks", Err: err}
+		}
+		for _, t := range r.GetTasks() {
+			if ids[t.GetTaskId()] && (t.GetLocked() || t.GetStatus() == "ACTIVE") {
+				return false, nil
+			}
+		}
+		return true, nil
+	}); err != nil {
+		return err
+	}
+	if len(ch) > 0 {
+		// nothing kept the command outstanding (no other target, no silenced victim): outside the class of scenarios
+		return fmt.Errorf("the request was answered before the core had handled the loss (nothing keeps the command outstanding)")
+	}
+	dbg("loss handled while the command is outstanding: tasks %v", p.lost)
 	return nil
 }
 
@@ -305,19 +528,47 @@ func afterState(w *sim.World, id string) (string, error) {
 // no transition command of this request at all — i.e. the core is not waiting for anybody's answer, there is no timer on
 // its path. If commands were sent, the core is waiting for its own response timeout: keep waiting (up to reqCeiling) and
 // report what it finally answers. Everything else is infrastructure trouble (inconclusive).
+//
+// While waiting, the core is asked every 10 s what it is doing. An environment that sits in transition DESTROY on two
+// consecutive looks is the teardown of a failed creation that never finishes: finding C06 `teardown_registration_race`
+// (TeardownEnvironment waits for a TasksReleasedEvent that the event loop dropped; the more likely the busier the
+// machine). It is not this property's business and never ends: the case is given up as inconclusive at once instead of
+// at reqCeiling (it used to cost every run that met it 260 s of wall time).
 func await(w *sim.World, ch chan rpcResult, expectFast bool, tr string, mark int, simEv string) (res rpcResult, hang bool, hangState string, err error) {
 	t0 := time.Now()
-	if expectFast {
+	first := true
+	inDestroy := 0
+	for {
+		wait := 10 * time.Second
+		if first {
+			wait = hangCeiling
+		}
+		if left := reqCeiling - time.Since(t0); left < wait {
+			wait = left
+		}
 		select {
 		case res = <-ch:
 			return res, false, "", nil
-		case <-time.After(hangCeiling):
+		case <-time.After(wait):
+		}
+		if time.Since(t0) >= reqCeiling {
+			break
 		}
 		envs, e := envSnapshot(w)
 		if e != nil {
 			return res, false, "", e
 		}
-		if commandsSince(w, mark, simEv).Len() == 0 {
+		if len(envs) == 1 && envs[0].GetCurrentTransition() == "DESTROY" {
+			if inDestroy++; inDestroy >= 2 {
+				if Debug != nil {
+					dumpCore(w)
+				}
+				return res, false, "", &sim.InfraError{What: "the core sits in the teardown of the environment (transition DESTROY) for more than 10 s: finding C06 teardown_registration_race, not a C02 verdict"}
+			}
+		} else {
+			inDestroy = 0
+		}
+		if first && expectFast && commandsSince(w, mark, simEv).Len() == 0 {
 			if len(envs) == 1 && envs[0].GetCurrentTransition() == tr {
 				// one more look after a pause: still no answer, still nothing sent
 				time.Sleep(2 * time.Second)
@@ -333,13 +584,22 @@ func await(w *sim.World, ch chan rpcResult, expectFast bool, tr string, mark int
 				return res, false, "", &sim.InfraError{What: fmt.Sprintf("no answer within %s, nothing sent and the core does not show %s in progress", hangCeiling, tr)}
 			}
 		}
+		first = false
 	}
-	select {
-	case res = <-ch:
-		return res, false, "", nil
-	case <-time.After(reqCeiling - time.Since(t0)):
+	if Debug != nil {
+		dumpCore(w)
 	}
 	return res, false, "", &sim.InfraError{What: "request ceiling reached"}
+}
+
+// dumpCore (probe only): SIGQUIT to the core child, so that its goroutine dump lands in core.<n>.stderr (keep the
+// directory with SIM_KEEP=1).
+func dumpCore(w *sim.World) {
+	exec.Command("pkill", "-QUIT", "-f", "coreWorkingDir="+w.Dir()+"/core").Run()
+	time.Sleep(2 * time.Second)
+	dst := "/tmp/c02-dump-" + filepath.Base(w.Dir())
+	exec.Command("cp", "-r", w.Dir(), dst).Run()
+	dbg("core dumped: %s", dst)
 }
 
 // isGrpc: err is an answer of the core (a gRPC status set by the handler), not transport/deadline trouble.
@@ -500,7 +760,7 @@ func runScenario(in string) (string, error) {
 	}
 
 	// ---- ControlEnvironment requests
-	for _, st := range sc.steps[1:] {
+	for stepNo, st := range sc.steps[1:] {
 		if st.ev == "DIE" {
 			if err = idleDeaths(w, sc, st); err != nil {
 				return "", err
@@ -511,7 +771,12 @@ func runScenario(in string) (string, error) {
 		if !ok {
 			return "", fmt.Errorf("unknown event %q", st.ev)
 		}
-		if err = script(w, sc, st); err != nil {
+		var plan *lossPlan
+		if st.hasLoss() {
+			if plan, err = scriptLoss(w, sc, st, stepNo+1); err != nil {
+				return "", err
+			}
+		} else if err = script(w, sc, st); err != nil {
 			return "", err
 		}
 		mark = len(w.Trace())
@@ -522,7 +787,16 @@ func runScenario(in string) (string, error) {
 			r, err := w.Client().ControlEnvironment(ctx, &pb.ControlEnvironmentRequest{Id: id, Type: op})
 			ch <- rpcResult{state: r.GetState(), err: err}
 		}()
-		res, hang, hangState, err = await(w, ch, !slow(st.outs), st.ev, mark, simEvent[st.ev])
+		expectFast := !slow(st.outs)
+		if plan != nil {
+			if err = loseDuring(w, plan, ch, mark); err != nil {
+				return "", err
+			}
+			if plan.silenced {
+				expectFast = false
+			}
+		}
+		res, hang, hangState, err = await(w, ch, expectFast, st.ev, mark, simEvent[st.ev])
 		if err != nil {
 			return "", err
 		}
@@ -538,11 +812,27 @@ func runScenario(in string) (string, error) {
 		if res.err != nil {
 			rpc, state = "err", "-"
 		}
+		critLost := plan != nil && plan.critLost
+		if critLost && rpc == "ok" {
+			// a critical task was lost and the transition succeeded all the same (the task had acknowledged): the
+			// environment's watcher performs GO_ERROR as soon as it gets the transition mutex; wait for it
+			if _, err = w.WaitEnvState(id, 60*time.Second, "ERROR"); err != nil {
+				return "", err
+			}
+		}
 		if after, err = afterState(w, id); err != nil {
 			return "", err
 		}
-		obs.Add(sx.L(sx.A("ctl"), sx.A(st.ev), sx.A(rpc), sx.A(state), sx.A(after), commandsSince(w, mark, simEvent[st.ev])))
-		if rpc != "ok" || state != dstOf[st.ev] || hasUndeliv(st.outs) {
+		o := sx.L(sx.A("ctl"), sx.A(st.ev), sx.A(rpc), sx.A(state), sx.A(after), commandsSince(w, mark, simEvent[st.ev]))
+		if plan != nil && len(plan.lost) > 0 {
+			l := sx.L(sx.A("lost"))
+			for _, i := range plan.lost {
+				l.Add(sx.I(i))
+			}
+			o.Add(l)
+		}
+		obs.Add(o)
+		if rpc != "ok" || state != dstOf[st.ev] || hasUndeliv(st.outs) || critLost {
 			break
 		}
 	}
